@@ -9,6 +9,27 @@ from .common import main, watched, pick
 from . import c07
 
 
+class CrashNow(RuntimeError):
+    pass
+
+
+class Crash:
+    """factory of a Lightning callback that raises inside the n-th closure evaluation (after backward, before the update)"""
+
+    def __new__(cls, at):
+        import pytorch_lightning as pl
+
+        class _Crash(pl.Callback):
+            def __init__(self):
+                self.n = 0
+
+            def on_before_optimizer_step(self, trainer, pl_module, optimizer):
+                self.n += 1
+                if self.n == at:
+                    raise CrashNow("injected crash in closure evaluation %d" % at)
+        return _Crash()
+
+
 def load_ab(path, cfg):
     m = c07.Affine(cfg["a0"] + 7, cfg["b0"] - 5, tied=cfg.get("tied", False))           # a fresh model with OTHER weights
     try:
@@ -64,9 +85,24 @@ def run_one(s):
             if f_.endswith(".pt"):
                 os.unlink(os.path.join(wd, f_))
 
+        # the interruption: either the run simply ends after step `kill`, or (every second scenario) it was meant to run to N and an
+        # exception is raised inside step kill + 1 -- for the two-evaluation optimizer inside its SECOND closure evaluation, when the
+        # weights are already half moved.  The last file written is the one of step `kill` either way.
+        crash = pick(s["tid"], 2, 5) == 1
+        tr["crash"] = crash
+
         def run1():
-            cb = lambda objs: [tp.utils.TrainerStateCheckpoint(wd, sname, check_interval=ck)]
-            c07.fit(cfg, kill, wd, callbacks_extra=cb, setting=setting)
+            if not crash:
+                cb = lambda objs: [tp.utils.TrainerStateCheckpoint(wd, sname, check_interval=ck)]
+                c07.fit(cfg, kill, wd, callbacks_extra=cb, setting=setting)
+            else:
+                at = 2 * kill + 2 if cfg.get("opt") == "two" else kill + 1
+                cb = lambda objs: [tp.utils.TrainerStateCheckpoint(wd, sname, check_interval=ck), Crash(at)]
+                try:
+                    c07.fit(cfg, N, wd, callbacks_extra=cb, setting=setting)
+                    return False                      # (the injected crash did not happen)
+                except CrashNow:
+                    pass
             return os.path.exists(os.path.join(wd, sname + ".ckpt"))
         r = watched(run1, 90)
         if r[0] != "ok" or not r[1]:
@@ -76,7 +112,7 @@ def run_one(s):
 
         def run2():
             # the resumed run carries a weight-saving callback of its own (files r_*): its minimum-loss file holds a checked step
-            cbr = lambda objs: [tp.utils.WeightSaveCallback(objs["model"], wd, "r", check_interval=ck, save_initial_model=False, save_final_model=True)]
+            cbr = lambda objs: [tp.utils.WeightSaveCallback(objs["model"], wd, "r", check_interval=ck, save_initial_model=True, save_final_model=True)]
             log, objs, trainer, _ = c07.fit(cfg, N, wd, ckpt_path=os.path.join(wd, sname + ".ckpt"), setting=setting, callbacks_extra=cbr)
             return c07.snapshot(objs, trainer), int(trainer.global_step), log
         r = watched(run2, 90)
@@ -86,7 +122,7 @@ def run_one(s):
             return tr
         tr["run2"], tr["steps2"] = r[1][0], r[1][1]
         tr["log2"] = [e for e in r[1][2] if e["e"] == "step"]
-        for nm in ("min_loss", "final"):
+        for nm in ("init", "min_loss", "final"):
             p = os.path.join(wd, "r_%s.pt" % nm)
             tr["filesr"][nm] = load_ab(p, cfg) if os.path.exists(p) else []
         return tr
